@@ -179,6 +179,9 @@ impl Prop for C11 {
         for h in ["as-built", "restored-from-json", "restored-from-pickle-state"] {
             v.push(format!("looked-up:{}", h));
         }
+        for k in ["float", "Dual", "Dual2"] {
+            v.push(format!("node-kind:{}", k));
+        }
         v
     }
     fn min_evaluations(&self, tier: Tier) -> u64 {
@@ -238,7 +241,11 @@ impl Prop for C11 {
             }
             // the Python-facing constructor sorts mixed-kind node maps itself
             ctx.class(&format!("constructor:{}:python-facing", rule));
-            match guarded(|| VerifCurve::new(nodes_numbers(&c), rule, ADOrder::Zero, &c.id, Convention::Act365F, Modifier::F, CalType::Cal(cal.clone()), c.index_base)) {
+            // node values may be held as floats or as first- / second-order dual numbers: the looked-up VALUE follows
+            // the same rule whatever the kind (the sensitivities are C12's business)
+            let ad_kind = [ADOrder::Zero, ADOrder::One, ADOrder::Two][((idx / 3) % 3) as usize];
+            ctx.class(&format!("node-kind:{}", ["float", "Dual", "Dual2"][((idx / 3) % 3) as usize]));
+            match guarded(|| VerifCurve::new(nodes_numbers(&c), rule, ad_kind, &c.id, Convention::Act365F, Modifier::F, CalType::Cal(cal.clone()), c.index_base)) {
                 Caught::Ok(Ok(vc)) => {
                     // a curve that has been saved and restored is still a curve: two in three of these are looked
                     // up only after a trip through JSON or through the pickle state
